@@ -58,4 +58,8 @@ CarrierOK == E.k = "carrier" =>
   /\ E.panicked = FALSE
   /\ (d.ok /\ d.tree.t # 0) => (E.ok /\ E.out = SubSeq(E.input, 1, d.n))
   /\ (~d.ok /\ d.why \in {"short", "neg", "tag"}) => ~E.ok
+\* "never loops without consuming input": every value of a decoded result occupies at least one byte of the
+\* document, so a decoder that reports success cannot have produced more values than it consumed bytes (a list of
+\* n > 0 elements of type End would be n values in no bytes)
+NoAmplify == (E.k \in {"dec", "carrier"} /\ E.ok /\ E.nodes >= 0) => E.nodes <= E.n
 =============================================================================
